@@ -408,6 +408,16 @@ func hasVariadicParameter(funType reflect.Type) bool {
 }
 
 func convTypeToTarget(source interface{}, target reflect.Type) (interface{}, error) {
+	if target.Kind() != reflect.Interface {
+		// a Go number that did not come out of an expression - an element of a caller's slice, a
+		// spread operand - is a number like any other and takes the checked route of numbers,
+		// not Go's wrapping conversion: []int{300} reached a []int8 parameter as [44],
+		// []int64{1 << 40} a []int32 as [0], and max(xs...) refused the elements of a []int
+		switch source.(type) {
+		case int, int32, int64, float32, float64:
+			source, _ = formatInput(source)
+		}
+	}
 	switch target.Kind() {
 	case reflect.Interface:
 		return source, nil
